@@ -467,24 +467,25 @@ fn gen_ops(r: &mut Rng, kind: u64, pool: &[Vec<u8>], n: usize) -> String {
     s
 }
 fn gen_frame(r: &mut Rng, kind: u64, pool: &[Vec<u8>]) -> String {
-    let tags: Vec<u64> = match r.below(12) { 0 | 1 => vec![], 2 => vec![258, 258], 3 => vec![259], 4 => vec![258, 258, 258], 5 => vec![24], _ => vec![258] };
+    let two = kind == 4 || kind == 5;      // VotingProposals and Vkeywitnesses skip a second set tag
+    let tags: Vec<u64> = match r.below(40) { 0..=5 => vec![], 6..=9 => if two { vec![258, 258] } else { vec![258] }, 10 => vec![258, 258], 11 => vec![259], 12 => vec![258, 258, 258], 13 => vec![24], _ => vec![258] };
     let ni = r.below(7) as usize;
     let mut items = Vec::new();
     for _ in 0..ni {
         let e = r.pick(pool);
-        items.push(match r.below(20) {
+        items.push(match r.below(45) {
             0 => "n".to_string(),
             1 => "b6161".to_string(),                                   // a text string where the element is expected: every element decoder rejects it
             2..=6 => { let w = widen(e); match canon_of(kind, &w) { Some(c) => format!("e{},{}", hx(&w), hx(&c)), None => format!("b{}", hx(&w)) } }
             _ => format!("e{},{}", hx(e), hx(e)),
         });
     }
-    let (len, brk) = match r.below(10) {
-        0 | 1 | 2 => ("i".to_string(), r.chance(9, 10)),
-        3 => (format!("d{}w{}", ni + 1 + r.below(2) as usize, 1), r.chance(1, 2)),                 // announces more than there is
-        4 => (format!("d{}w{}", ni.saturating_sub(1), 0), r.chance(1, 4)),                        // announces less
-        5 => (format!("d{}w{}", ni, *r.pick(&[1u8, 2, 4, 8])), false),                            // non-minimal head
-        _ => (format!("d{}w{}", ni, min_width(ni as u64)), r.chance(1, 10)),
+    let (len, brk) = match r.below(14) {
+        0..=3 => ("i".to_string(), r.chance(19, 20)),
+        4 => (format!("d{}w{}", ni + 1 + r.below(2) as usize, 1), r.chance(1, 2)),                 // announces more than there is
+        5 => (format!("d{}w{}", ni.saturating_sub(1), 0), r.chance(1, 4)),                        // announces less (the rest is ignored)
+        6 | 7 => (format!("d{}w{}", ni, *r.pick(&[1u8, 2, 4, 8])), false),                        // non-minimal head
+        _ => (format!("d{}w{}", ni, min_width(ni as u64)), r.chance(1, 20)),                      // a break after a complete definite array is never read
     };
     let mut s = format!("bytes {}", tags.len());
     for t in &tags { s += &format!(" {}", t); }
@@ -507,7 +508,7 @@ fn gen_set(r: &mut Rng, out: &mut Out, thorough: bool) {
                 out.emit(&line, &guarded(move || exec(&toks)));
             }
         }
-        let reps = if thorough { 400 } else { 70 };
+        let reps = if thorough { 500 } else { 130 };
         for _ in 0..reps {
             let np = r.range(1, 6) as usize;
             let ids = pool_ids(r, np); let pool: Vec<Vec<u8>> = ids.iter().map(|i| element(kind, *i)).collect();
@@ -545,7 +546,7 @@ fn native_script(id: u64) -> NativeScript {
     }
 }
 fn gen_ws(r: &mut Rng, out: &mut Out, thorough: bool) {
-    for _ in 0..(if thorough { 900 } else { 160 }) {
+    for _ in 0..(if thorough { 1200 } else { 300 }) {
         let nops = r.range(1, 4) as usize; let mut line = format!("ws {}", nops);
         for _ in 0..nops {
             let n = r.below(6) as usize;
@@ -576,7 +577,7 @@ fn gen_assets(r: &mut Rng, n: usize) -> String {
     let mut s = format!("{}", n); for _ in 0..n { s += &format!(" {} {}", hx(&gen_name(r)), r.u64_edge().max(1)); } s
 }
 fn gen_ma(r: &mut Rng, out: &mut Out, thorough: bool) {
-    for round in 0..(if thorough { 1500 } else { 260 }) {
+    for round in 0..(if thorough { 2500 } else { 500 }) {
         let pols: Vec<Vec<u8>> = (0..4).map(|i| { let mut p = fill(r.below(6), 51, 28); if i % 2 == 1 { p[0] = *r.pick(&[0u8, 0xff, 0x80]); } p }).collect();
         let n = r.below(9) as usize;
         let line = match round % 5 {
@@ -623,7 +624,7 @@ fn gen_mint_ops(r: &mut Rng, n: usize, allow_ref: bool) -> String {
     s
 }
 fn gen_mint(r: &mut Rng, out: &mut Out, thorough: bool) {
-    for _ in 0..(if thorough { 900 } else { 160 }) {
+    for _ in 0..(if thorough { 1500 } else { 300 }) {
         let k = r.below(8) as usize; let line = format!("mint {}", gen_mint_ops(r, k, false));
         let toks: Vec<String> = line.split_whitespace().map(|s| s.to_string()).collect();
         out.emit(&line, &guarded(move || exec(&toks)));
@@ -635,7 +636,7 @@ fn gen_mint(r: &mut Rng, out: &mut Out, thorough: bool) {
 }
 fn gen_txin(r: &mut Rng, pool: u64) -> String { let id = r.below(pool); format!("{} {}", hx(&fill(id, 70, 32)), (id % 3) + r.below(2)) }
 fn gen_tx(r: &mut Rng, out: &mut Out, thorough: bool) {
-    for _ in 0..(if thorough { 600 } else { 160 }) {
+    for _ in 0..(if thorough { 1000 } else { 250 }) {
         let mut line = String::from("tx");
         // regular inputs; sometimes one of them is also the reference input of a script source (must then not be a reference input)
         let ni = r.range(1, 5); line += &format!(" I {}", ni);
